@@ -35,7 +35,12 @@ type br struct {
 	branch uint32
 }
 
+// customScope is a non-default key scope some wallets register before they are
+// recovered (recovery attempts every registered scope).
+var customScope = waddrmgr.KeyScope{Purpose: 1017, Coin: 1}
+
 var kinds = map[waddrmgr.KeyScope][2]oracle.AddrKind{
+	customScope:                  {oracle.P2WPKH, oracle.P2WPKH},
 	waddrmgr.KeyScopeBIP0044:     {oracle.P2PKH, oracle.P2PKH},
 	waddrmgr.KeyScopeBIP0049Plus: {oracle.NP2WPKH, oracle.P2WPKH},
 	waddrmgr.KeyScopeBIP0084:     {oracle.P2WPKH, oracle.P2WPKH},
@@ -75,6 +80,7 @@ type caseCfg struct {
 	restartOn bool // stop + reopen after the injected failure
 	boundary  bool // long chain: payments placed at recovery batch boundaries
 	creation  int  // height whose timestamp is the creation time
+	custom    bool // a custom key scope (m/1017'/1') is registered before the recovery and paid to
 	resume    bool // long chain; the first FilterBlocks call of the SECOND batch fails: the retry resumes from persisted state
 }
 
@@ -85,6 +91,15 @@ func runCase(r *evid.Run, dir string, cs int64, idx int) {
 	if rg.Intn(3) == 0 {
 		c.failAt = 1 + rg.Intn(6)
 		c.restartOn = rg.Intn(2) == 0
+	}
+	// every fifth short case registers a custom key scope first; those cases are
+	// always interrupted (a failed batch must not leave the custom scope's
+	// in-memory indices ahead of the database)
+	if idx%5 == 4 {
+		c.custom = true
+		if c.failAt == 0 {
+			c.failAt = 1 + idx/5%6
+		}
 	}
 	if idx == 1 || idx == 2 || (!r.Quick() && rg.Intn(25) == 0) {
 		c.resume = true
@@ -121,7 +136,11 @@ func runCase(r *evid.Run, dir string, cs int64, idx int) {
 	seed := make([]byte, 32)
 	rg.Read(seed)
 	wd := &world{seed: seed, accts: map[waddrmgr.KeyScope]oracle.XKey{}, bkeys: map[br]oracle.XKey{}}
-	for _, s := range waddrmgr.DefaultKeyScopes {
+	scopes := append([]waddrmgr.KeyScope{}, waddrmgr.DefaultKeyScopes...)
+	if c.custom {
+		scopes = append(scopes, customScope, customScope) // paid twice as often: it is the point of these cases
+	}
+	for _, s := range scopes {
 		leg, _, _, err := oracle.AccountKey(seed, s.Purpose, s.Coin, 0)
 		if err != nil {
 			return // unusable seed (p ~ 2^-127)
@@ -132,6 +151,7 @@ func runCase(r *evid.Run, dir string, cs int64, idx int) {
 	highest := map[br]int{} // highest used index
 	utxo := map[wire.OutPoint]btcutil.Amount{}
 	usedAddrs := map[string]btcutil.Address{}
+	notCredited := map[string]bool{} // custom-scope addresses: known after recovery, never credited or marked used
 	txAt := map[chainhash.Hash]int32{} // every tx paying to / spending from the wallet -> height
 	payHeights := map[int32]bool{}     // heights with at least one payment to the wallet
 	var plog []string
@@ -148,6 +168,7 @@ func runCase(r *evid.Run, dir string, cs int64, idx int) {
 	var boundaryOps []bop
 	reserved := map[wire.OutPoint]bool{} // only ever spent by the forced change-less spend
 	favScope, favBranch := waddrmgr.DefaultKeyScopes[rg.Intn(4)], uint32(rg.Intn(2))
+	_ = scopes
 	var firstBatchLast int // filled after the wallet's birthday is known; boundary placement uses an estimate
 	for h := 1; h <= c.blocks; h++ {
 		var txs []*wire.MsgTx
@@ -175,7 +196,7 @@ func runCase(r *evid.Run, dir string, cs int64, idx int) {
 			firstBatchLast = est + 2000
 		}
 		for i := 0; i < pays; i++ {
-			b := br{waddrmgr.DefaultKeyScopes[rg.Intn(4)], uint32(rg.Intn(2))}
+			b := br{scopes[rg.Intn(len(scopes))], uint32(rg.Intn(2))}
 			if c.resume {
 				// resumed recoveries: mostly one scope, mostly its internal branch, so
 				// that the two branches' persisted counts differ widely at the resume point
@@ -204,7 +225,13 @@ func runCase(r *evid.Run, dir string, cs int64, idx int) {
 			amt := btcutil.Amount(10000 + rg.Intn(100000))
 			tx.AddTxOut(wire.NewTxOut(int64(amt), pk))
 			txs = append(txs, tx)
-			utxo[wire.OutPoint{Hash: tx.TxHash(), Index: 0}] = amt
+			if b.scope != customScope {
+				// (funds sent to non-default scopes are found and their addresses
+				// extended, but by design never credited: wallet.addRelevantTx)
+				utxo[wire.OutPoint{Hash: tx.TxHash(), Index: 0}] = amt
+			} else {
+				notCredited[addr.EncodeAddress()] = true
+			}
 			txAt[tx.TxHash()] = int32(h)
 			payHeights[int32(h)] = true
 			if nearBoundary {
@@ -250,14 +277,20 @@ func runCase(r *evid.Run, dir string, cs int64, idx int) {
 				val := utxo[op]
 				delete(utxo, op)
 				what := "no change"
+				customChange := false
 				if forced == nil && rg.Intn(2) == 0 {
-					b := br{waddrmgr.DefaultKeyScopes[rg.Intn(4)], 1}
+					b := br{scopes[rg.Intn(len(scopes))], 1}
 					idx := uint32(rg.Intn(int(next[b] + c.W)))
 					if addr, err := wd.addr(b, idx, ch); err == nil {
 						pk, _ := txscript.PayToAddrScript(addr)
 						chg := val / 2
 						tx.AddTxOut(wire.NewTxOut(int64(chg), pk))
-						utxo[wire.OutPoint{Hash: tx.TxHash(), Index: 0}] = 0 // fixed below
+						if b.scope != customScope {
+							utxo[wire.OutPoint{Hash: tx.TxHash(), Index: 0}] = 0 // fixed below
+						} else {
+							notCredited[addr.EncodeAddress()] = true
+							customChange = true
+						}
 						if idx+1 > foundThis[b] {
 							foundThis[b] = idx + 1
 						}
@@ -275,7 +308,7 @@ func runCase(r *evid.Run, dir string, cs int64, idx int) {
 						delete(utxo, o)
 					}
 				}
-				if len(tx.TxOut) == 2 {
+				if len(tx.TxOut) == 2 && !customChange {
 					utxo[wire.OutPoint{Hash: tx.TxHash(), Index: 0}] = btcutil.Amount(tx.TxOut[0].Value)
 				}
 				txs = append(txs, tx)
@@ -305,6 +338,26 @@ func runCase(r *evid.Run, dir string, cs int64, idx int) {
 		return
 	}
 	defer h.Close()
+	if c.custom {
+		err := walletdb.Update(h.DB, func(tx walletdb.ReadWriteTx) error {
+			ns := tx.ReadWriteBucket(wh.AddrNS)
+			m, err := waddrmgr.Open(ns, h.PubPass, params)
+			if err != nil {
+				return err
+			}
+			defer m.Close()
+			if err := m.Unlock(ns, append([]byte(nil), h.PrivPass...)); err != nil {
+				return err
+			}
+			_, err = m.NewScopedKeyManager(ns, customScope, waddrmgr.ScopeAddrSchema{ExternalAddrType: waddrmgr.WitnessPubKey, InternalAddrType: waddrmgr.WitnessPubKey})
+			return err
+		})
+		if err != nil {
+			r.Inconclusive("harness: custom scope: " + err.Error())
+			return
+		}
+		r.Hit("recoveries-with-a-custom-key-scope", 1)
+	}
 	desc := fmt.Sprintf("%+v payments=%d", c, len(plog))
 	fail := func(key, what string) {
 		lg := plog
@@ -462,7 +515,7 @@ func runCase(r *evid.Run, dir string, cs int64, idx int) {
 				bad = fmt.Sprintf("used-address-unknown|used address %s is not known to the recovered wallet: %v", s, err)
 				return nil
 			}
-			if !ma.Used(ans) {
+			if !ma.Used(ans) && !notCredited[s] {
 				bad = fmt.Sprintf("used-address-not-marked|address %s was paid on chain but is not marked used", s)
 				return nil
 			}
@@ -551,6 +604,36 @@ func runCase(r *evid.Run, dir string, cs int64, idx int) {
 			}
 			keys++
 		}
+	}
+	// (7) what recovery left in memory is what it left on disk: the branch
+	// counters of every scope (custom ones included) are the same after a restart
+	if c.custom || idx%4 == 0 {
+		counts := func() map[string]string {
+			out := map[string]string{}
+			for _, sc := range scopes {
+				p, err := h.W.AccountProperties(sc, 0)
+				if err != nil {
+					out[fmt.Sprint(sc)] = "ERR " + err.Error()
+					continue
+				}
+				out[fmt.Sprint(sc)] = fmt.Sprintf("ext=%d int=%d", p.ExternalKeyCount, p.InternalKeyCount)
+			}
+			return out
+		}
+		running := counts()
+		h.Stop()
+		if err := h.OpenOffline(false); err != nil {
+			fail("c16:reopen", err.Error())
+			return
+		}
+		reopened := counts()
+		for k, v := range running {
+			if reopened[k] != v {
+				fail("c16:branch-counters-differ-after-restart", fmt.Sprintf("scope %s: the recovered wallet reports %s, after a restart it reports %s", k, v, reopened[k]))
+				return
+			}
+		}
+		r.Hit("recoveries-compared-with-a-restarted-wallet", 1)
 	}
 	r.Hit("recoveries", 1)
 	r.Hit("payments", len(plog))
@@ -669,7 +752,7 @@ func main() {
 	lg.SetLevel(btclog.LevelError)
 	wallet.UseLogger(lg)
 	r := evid.New(P, "exploration")
-	r.Rule("generated chains (25..400 blocks; one long chain per quick run and several per thorough run of 2050..4400 blocks crossing the 2000-block recovery batch boundary, with payments forced into the +-14 blocks around each boundary) in which every block pays, per default key scope and branch, only indices <= (highest index paid in earlier blocks) + W (incl. the far edge of the look-ahead and re-use of old indices), several payments per block, later spends of recovered outputs with and without change (the latter visible only through watched outpoints), W in {1,2,3,5,20}, block spacing 10 min / 2 h / 6 h with the creation time at a random height or before the chain, recovery locked or unlocked, interrupted by a FilterBlocks error at the k-th call (sync retry resumes) and by stop + reopen; two RESUME chains per run (2400..2700 blocks, payments concentrated on one branch of one scope so that the two persisted branch counters differ widely) in which the first FilterBlocks call of the second batch fails, so that the retry resumes from a committed batch (one of them with stop + reopen); addresses come from the independent BIP32 oracle (legacy rule). After recovery the generator's ledger is the oracle: CalculateBalance(0/1), ListUnspent as a set with amounts, every used address known and marked used, every paying/spending transaction recorded at its height, each branch's key count above the highest used index, BirthdayBlock below the first block whose timestamp reaches the creation time, and PrivKeyForAddress for every index up to the highest used one (gap addresses too). Invalid child indices are driven synthetically at the exported BranchRecoveryState API (look-ahead invariant). Non-trivial = chain with at least one payment; distinct = distinct case descriptions.")
+	r.Rule("generated chains (25..400 blocks; one long chain per quick run and several per thorough run of 2050..4400 blocks crossing the 2000-block recovery batch boundary, with payments forced into the +-14 blocks around each boundary) in which every block pays, per default key scope and branch, only indices <= (highest index paid in earlier blocks) + W (incl. the far edge of the look-ahead and re-use of old indices), several payments per block, later spends of recovered outputs with and without change (the latter visible only through watched outpoints), W in {1,2,3,5,20}, block spacing 10 min / 2 h / 6 h with the creation time at a random height or before the chain, recovery locked or unlocked, every fifth wallet with a custom key scope (m/1017'/1', P2WPKH) registered beforehand and paid to, interrupted by a FilterBlocks error at the k-th call (sync retry resumes) and by stop + reopen; two RESUME chains per run (2400..2700 blocks, payments concentrated on one branch of one scope so that the two persisted branch counters differ widely) in which the first FilterBlocks call of the second batch fails, so that the retry resumes from a committed batch (one of them with stop + reopen); addresses come from the independent BIP32 oracle (legacy rule). After recovery the generator's ledger is the oracle: CalculateBalance(0/1), ListUnspent as a set with amounts, every used address known and marked used, every paying/spending transaction recorded at its height, each branch's key count above the highest used index, BirthdayBlock below the first block whose timestamp reaches the creation time, and PrivKeyForAddress for every index up to the highest used one (gap addresses too). Invalid child indices are driven synthetically at the exported BranchRecoveryState API (look-ahead invariant). Non-trivial = chain with at least one payment; distinct = distinct case descriptions.")
 	r.Trusted("internal/fakechain FilterBlocks built on the real chain.BlockFilterer (anchored code)", "independent BIP32 oracle")
 	r.Assume("payments only in blocks whose timestamp is >= the creation time handed to wallet.Create", "look-ahead condition read as index <= highest-paid-earlier + W (what horizon = nextUnfound + W gives)")
 	dir, _ := os.MkdirTemp("", "c16")
